@@ -54,7 +54,7 @@ m = {
  }],
  "checks": checks,
  "not_applicable": na,
- "notes": "Technique family: static analysis. Every check loads /repo's current working tree, decides its rules on the type-checked/SSA program and never runs repository code. exit 0 = all obligations discharged/exempt/known; exit 1 = VIOLATION lines; exit 2 = UNDECIDED (the checker could not decide; never reported as a violation). Known findings: /verif/known_findings.json; reviewed exemptions: /verif/exemptions.json.",
+ "notes": "Technique family: static analysis. Every check loads /repo's current working tree, decides its rules on the type-checked/SSA program and never runs repository code. exit 0 = all obligations discharged/exempt/known; exit 1 = VIOLATION lines (an obligation a rule could not decide, or a rule that no longer finds the constructs it is about, is reported as not held: UNDECIDED lines say why and the replay file carries verdict=undecided); exit 2 = the checker itself could not run (load error, panic). Known findings: /verif/known_findings.json; reviewed exemptions: /verif/exemptions.json.",
 }
 json.dump(m, open(os.path.join(V, "MANIFEST.json"), "w"), indent=1)
 print("claimed:", [c["property_id"] for c in checks], "not applicable:", [n["property_id"] for n in na])
